@@ -8,6 +8,7 @@ Confirms a seeded change independently and runs our checks against it:
      undoes it straight afterwards (`git -C /repo checkout -- .`);
   3. prints the result as JSON; tools/collect_seeds.py stores confirmed seeds under /verif/seeded/.
 """
+import time
 import json, os, shutil, subprocess, sys, time
 
 ENV = dict(os.environ, GOFLAGS="-mod=mod", GOPROXY="off", GOSUMDB="off", GOTOOLCHAIN="local")
@@ -32,7 +33,10 @@ def run_demo(wt):
         for pre in ("/tmp/seed/",):
             if pkg.startswith(pre.strip("/")) or pkg.startswith(pre):
                 pkg = "/".join(pkg.split("/")[4:])
-        dst = os.path.join(wt, pkg, "zz_demo_seed_test.go")
+        # keep the demonstration's own file name (it may check the caller's file name in a source attribute)
+        dst = os.path.join(wt, pkg, "demo_test.go")
+        if os.path.exists(dst):
+            dst = os.path.join(wt, pkg, "zz_demo_seed_test.go")
         shutil.copyfile(os.path.join(src, "demo_test.go"), dst)
         # a demonstration may need the repository's own verif hooks (e.g. the launcher pause point)
         tags = "-tags verif " if "-tags verif" in (meta.get("demo") or "") + (meta.get("needs") or "") else ""
@@ -62,13 +66,14 @@ try:
     if rc != 0:
         res["apply_error"] = out
     else:
-        rc, out = sh("go build ./... && go test -count=1 ./...", cwd=WT)
+        rc, out = sh("go build ./... && flock /tmp/seedtest-suite.lock go test -count=1 ./...", cwd=WT)
         for _ in range(2):
             if rc == 0:
                 break
             # the suite has known timing-flaky tests (util/osutil signal tests, tasklane TestPushTask under load): retry
             failed = [l.split()[1] for l in out.split("\n") if l.startswith("FAIL\t")]
-            rc, out2 = sh("go test -count=1 " + " ".join("./" + f.replace("github.com/whoisnian/glb/", "") for f in failed) if failed else "go test -count=1 ./...", cwd=WT)
+            time.sleep(2)
+            rc, out2 = sh("flock /tmp/seedtest-suite.lock go test -count=1 " + " ".join("./" + f.replace("github.com/whoisnian/glb/", "") for f in failed) if failed else "go test -count=1 ./...", cwd=WT)
             out += "\n--- retry ---\n" + out2
         res["tests_pass_with_patch"] = rc == 0
         if rc != 0:
